@@ -28,7 +28,7 @@ from glue.core.contracts import contract
 from glue.core.joins import get_mask_with_key_joins
 from glue.config import settings, data_translator, subset_state_translator
 from glue.utils import (compute_statistic, unbroadcast, iterate_chunks,
-                        datetime64_to_mpl, categorical_ndarray,
+                        datetime64_to_mpl, categorical_ndarray, index_lookup,
                         format_choices, random_views_for_dask_array,
                         random_indices_for_array)
 from glue.core.coordinate_helpers import axis_label
@@ -1854,6 +1854,11 @@ class Data(BaseCartesianData):
 
         if isinstance(data, categorical_ndarray):
             data = data.codes
+        elif isinstance(data, str):
+            # If the view selects a single element of a categorical array, this
+            # is returned as a string rather than as a categorical array, so we
+            # look up the corresponding code.
+            data = index_lookup([data], self.get_data(cid).categories)[0]
 
         if axis is None and mask is None and statistic in ('minimum', 'maximum', 'mean', 'median'):
             # Since we are just finding overall statistics, not along axes, we
